@@ -31,14 +31,17 @@ pub mod c06_finalize_iter {
     // ---- IndexMap: clone and by-value iteration ------------------------------------------------------
     impl<K, V> IndexMap<K, V> {
         /// the (key, value) pairs in iteration order
-        pub open spec fn entries(&self) -> Seq<(K, V)> {
-            Seq::new(self.key_order().len(), |i: int| (self.key_order()[i], self@[self.key_order()[i]]))
-        }
+        pub uninterp spec fn entries(&self) -> Seq<(K, V)>;
     }
+    /// entry i is (i-th key of the iteration order, the value bound to it)
+    pub broadcast axiom fn ax_c06_entries<K, V>(m: &IndexMap<K, V>)
+        ensures (#[trigger] m.entries()).len() == m.key_order().len(),
+            forall|i: int| 0 <= i < m.key_order().len() ==>
+                (#[trigger] m.entries()[i]) == (m.key_order()[i], m@[m.key_order()[i]]);
     impl<K: Clone, V: Clone> Clone for IndexMap<K, V> {
         #[verifier::external_body]
         fn clone(&self) -> (r: Self)
-            ensures r@ == self@, r.key_order() == self.key_order()
+            ensures r@ == self@, r.key_order() == self.key_order(), r.entries() == self.entries()
         { unimplemented!() }
     }
     impl<K, V> core::iter::IntoIterator for IndexMap<K, V> {
@@ -119,4 +122,5 @@ pub mod c06_finalize_iter {
         }
         open spec fn decrease(&self) -> Option<nat> { Some(self.rest().len()) }
     }
+    pub broadcast group group_c06_finalize_iter { ax_c06_entries }
 }
